@@ -102,32 +102,38 @@ def run(chk):
                 bad.append((b, bb, core.callee_of(t)))
     chk.ob("R2 first result", "R2|get_assertion|no-reordering", not bad, where(bad[0][0], bad[0][1]) if bad else where(ga),
            "reordering/last-element adaptors in the ceremony: %s" % ([short(x[2]) for x in bad] or "none"))
-    # how the element is selected: follow the credential passed to the signing key back to the lookup result
+    # how the element is selected: follow the signing key back to the lookup result, in normal form (helpers and closures
+    # looked through): everything that consumes the lookup's list must take its first element
     T = flow.Terms(p, ga)
+    is_lookup = lambda x: isinstance(x, tuple) and len(x) == 4 and x[0] == "await" and names.is_(x[1], "CredentialStore::find_credentials")
+    signs = names.calls_to(ga, "SignerMut::sign", "Signer::sign")
     sel_ok = False
-    sel_w = "no selection closure found"
-    for bb, t in ga.calls():
-        if names.call_is(t, "Result::and_then", "Result::map", "Option::and_then", "Option::map"):
-            recv = flow.simplify_term(T.operand(t["args"][0], bb, "t"))
-            if recv and recv[0] == "await" and names.is_(recv[1], "CredentialStore::find_credentials"):
-                clo = flow.simplify_term(T.operand(t["args"][1], bb, "t"))
-                if clo[0] == "closure":
-                    cb, ret = closure_ret(p, clo[1])
-                    sel_w = "selection = %s" % (flow.term_str(ret) if ret else "?")
-                    # accepted idioms: next(into_iter(param)) / next(iter(param)) / first(param)
-                    def first_of(x):
-                        if not isinstance(x, tuple) or not x:
-                            return False
-                        if x[0] == "call" and names.is_(x[1], "Iterator::next"):
-                            a = x[2][0]
-                            while isinstance(a, tuple) and a[0] == "call" and (names.is_(a[1], "IntoIterator::into_iter") or a[1].endswith("::iter")):
-                                a = a[2][0]
-                            return a == ("param", 2)
-                        if x[0] == "call" and (x[1].endswith("::first") or x[1].endswith("first_mut")):
-                            return x[2][0] == ("param", 2)
-                        return False
-                    sel_ok = ret is not None and flow.term_contains(ret, first_of)
-                    chk.touched(cb)
+    sel_w = "no signature site found"
+    if signs:
+        key = N.inline(T.operand(signs[0][1]["args"][0], signs[0][0], "t"))
+        consumers = set()
+
+        def walk(x):
+            if isinstance(x, frozenset):
+                for y in x:
+                    walk(y)
+                return
+            if not isinstance(x, tuple) or not x:
+                return
+            if len(x) == 4 and x[0] in ("call", "await") and isinstance(x[2], tuple):
+                for a in x[2]:
+                    b = a
+                    while isinstance(b, tuple) and len(b) == 4 and b[0] == "call" and b[2] and (names.is_(b[1], "IntoIterator::into_iter") or b[1].endswith("::iter") or b[1].endswith("::into_iter")):
+                        b = b[2][0]
+                    if flow.is_payload_of(b, is_lookup):
+                        consumers.add(x[1])
+            for y in x:
+                if isinstance(y, (tuple, frozenset)):
+                    walk(y)
+        walk(key)
+        first = {c for c in consumers if names.is_(c, "Iterator::next") or c.endswith("::first") or c.endswith("::first_mut") or c.endswith("::swap_remove") and False}
+        sel_ok = bool(consumers) and consumers == first
+        sel_w = "the signing key derives from the lookup result through %s" % sorted(short(c) for c in consumers)
     chk.ob("R2 first result", "R2|get_assertion|first-element", sel_ok, where(ga), sel_w)
 
     # ---------------- R3
